@@ -229,6 +229,10 @@ pub fn assemble<S>(
             assembly.defs.as_mut().unwrap(),
             opts.max_iterations)?);
 
+        // Errors reported during resolution without an `Err` result
+        // (e.g. failed top-level assertions) must still fail the assembly
+        report.stop_at_errors()?;
+
         output::check_bank_overlap(
             report,
             assembly.decls.as_ref().unwrap(),
